@@ -198,6 +198,10 @@ type recLn struct {
 }
 
 type sockState struct {
+	// called inside the bind function of the code under test, before the bind and after a
+	// successful one (the socket exists, Serve has not published it yet); set before Serve starts
+	beforeBind, afterBind func()
+
 	mu     sync.Mutex
 	binds  int // successful binds
 	fails  int // failed binds
@@ -238,12 +242,18 @@ var (
 func watchSocket(addr string) *sockState {
 	listenOnce.Do(func() {
 		origListen = proc.VerifSetListenFunc(func(proto, a string) (net.Listener, error) {
-			ln, err := origListen(proto, a)
 			sockMu.Lock()
 			st := sockStates[a]
 			sockMu.Unlock()
 			if st == nil {
-				return ln, err
+				return origListen(proto, a)
+			}
+			if st.beforeBind != nil {
+				st.beforeBind()
+			}
+			ln, err := origListen(proto, a)
+			if err == nil && st.afterBind != nil {
+				st.afterBind()
 			}
 			st.mu.Lock()
 			defer st.mu.Unlock()
